@@ -1,5 +1,602 @@
-//! CLI-level helpers (subprocess runs of the built squitterator binary).
+//! CLI-level monitors: the built `squitterator` binary is run as a subprocess; stdout is split
+//! into refreshes on the clear-screen sequence.
 
-pub fn replay_cli(_script: &str) -> (bool, String) {
-    (true, "cli replay not implemented yet\n".to_string())
+use super::c14::{cell, check_table, display_subsets, parse_table};
+use super::c15::check_order;
+use super::c16::{mixed_stream, ref_counts};
+use crate::drive::{Opts, Row, Table};
+use crate::fgen::*;
+use crate::json::J;
+use crate::printsub::PRow;
+use crate::refmodel::codes::*;
+use crate::refmodel::frames::FORMATS;
+use crate::report::Report;
+use crate::rng::Rng;
+use crate::Ctx;
+use std::process::{Command, Stdio};
+use std::sync::atomic::{AtomicU64, Ordering};
+use std::time::{Duration, Instant};
+
+pub const CLEAR: &str = "\x1b[2J\x1b[H\x1b[3J";
+static SEQ: AtomicU64 = AtomicU64::new(0);
+
+pub fn scratch(name: &str) -> String {
+    let dir = std::env::var("SQMON_SCRATCH").unwrap_or_else(|_| "/dev/shm".to_string());
+    format!("{}/sqmon-{}-{}-{}", dir, std::process::id(), SEQ.fetch_add(1, Ordering::Relaxed), name)
+}
+
+#[derive(Debug, Clone)]
+pub struct CliOut {
+    pub code: Option<i32>,
+    pub signal: Option<i32>,
+    pub timed_out: bool,
+    pub stdout: Vec<u8>,
+    pub stderr: String,
+    pub wall: f64,
+}
+
+impl CliOut {
+    pub fn clean_exit(&self) -> bool {
+        self.code == Some(0) && !self.timed_out && !self.stderr.contains("panicked")
+    }
+    pub fn describe(&self) -> String {
+        format!(
+            "exit code {:?}, signal {:?}, timed out {}, stderr {:?}",
+            self.code,
+            self.signal,
+            self.timed_out,
+            self.stderr.chars().take(300).collect::<String>()
+        )
+    }
+}
+
+/// run the CLI with the given arguments; stdout/stderr go to scratch files (may be large)
+pub fn run_cli(cli: &str, args: &[String], timeout: Duration, prefix: &[String]) -> CliOut {
+    use std::os::unix::process::ExitStatusExt;
+    let so = scratch("stdout");
+    let se = scratch("stderr");
+    let t0 = Instant::now();
+    let (prog, mut full): (String, Vec<String>) = if prefix.is_empty() { (cli.to_string(), vec![]) } else { (prefix[0].clone(), prefix[1..].iter().cloned().chain(std::iter::once(cli.to_string())).collect()) };
+    full.extend(args.iter().cloned());
+    let child = Command::new(&prog)
+        .args(&full)
+        .stdin(Stdio::null())
+        .stdout(std::fs::File::create(&so).expect("scratch"))
+        .stderr(std::fs::File::create(&se).expect("scratch"))
+        .env("RUST_BACKTRACE", "0")
+        .spawn();
+    let mut out = CliOut { code: None, signal: None, timed_out: false, stdout: vec![], stderr: String::new(), wall: 0.0 };
+    match child {
+        Err(e) => out.stderr = format!("spawn failed: {}", e),
+        Ok(mut ch) => {
+            loop {
+                match ch.try_wait() {
+                    Ok(Some(st)) => {
+                        out.code = st.code();
+                        out.signal = st.signal();
+                        break;
+                    }
+                    Ok(None) => {
+                        if t0.elapsed() > timeout {
+                            let _ = ch.kill();
+                            let _ = ch.wait();
+                            out.timed_out = true;
+                            break;
+                        }
+                        std::thread::sleep(Duration::from_millis(5));
+                    }
+                    Err(_) => break,
+                }
+            }
+            out.stdout = std::fs::read(&so).unwrap_or_default();
+            out.stderr = String::from_utf8_lossy(&std::fs::read(&se).unwrap_or_default()).to_string();
+        }
+    }
+    out.wall = t0.elapsed().as_secs_f64();
+    let _ = std::fs::remove_file(&so);
+    let _ = std::fs::remove_file(&se);
+    out
+}
+
+/// refresh blocks of a CLI run (legend excluded): text between clear-screen sequences
+pub fn refreshes(stdout: &[u8]) -> Vec<String> {
+    let s = String::from_utf8_lossy(stdout).to_string();
+    let parts: Vec<&str> = s.split(CLEAR).collect();
+    // parts[0] = text before the first clear (normally empty), parts[1] = legend, rest = refreshes
+    parts.iter().skip(2).map(|x| x.to_string()).collect()
+}
+
+pub fn cli_args(o: &Opts, source: &str) -> Vec<String> {
+    let mut a: Vec<String> = vec!["-s".into(), source.into()];
+    if o.u {
+        a.push("-U".into());
+    }
+    if o.r {
+        a.push("-R".into());
+    }
+    if o.count {
+        a.push("-c".into());
+    }
+    if let Some(f) = &o.filter {
+        for x in f {
+            a.push("-f".into());
+            a.push(x.to_string());
+        }
+    }
+    a.push(format!("--delete-after={}", o.delete_after));
+    a.push(format!("--update={}", o.update));
+    for d in &o.display {
+        a.push(format!("--display-info={}", d));
+    }
+    for d in &o.order {
+        a.push(format!("--order-by={}", d));
+    }
+    if let Some(m) = &o.log_messages {
+        for x in m {
+            a.push("-M".into());
+            a.push(x.to_string());
+        }
+    }
+    if let Some(d) = &o.downlink_log {
+        a.push("-D".into());
+        a.push(d.clone());
+    }
+    a
+}
+
+pub fn prow_of(r: &Row) -> PRow {
+    PRow {
+        icao: r.icao,
+        reg: r.reg.clone(),
+        squawk: r.squawk,
+        threat: r.threat_encounter,
+        category: r.category,
+        ais: r.ais.clone(),
+        lat: r.latf(),
+        lon: r.lonf(),
+        dist: r.distf(),
+        altitude: r.altitude,
+        altitude_source: r.altitude_source,
+        altitude_gnss: r.altitude_gnss,
+        selected_altitude: r.selected_altitude,
+        target_altitude_source: r.target_altitude_source,
+        baro: r.barometric_pressure_setting,
+        vrate: r.vrate,
+        vrate_source: r.vrate_source,
+        track: r.track,
+        track_source: r.track_source,
+        heading: r.heading,
+        heading_source: r.heading_source,
+        grspeed: r.grspeed,
+        tas: r.true_airspeed,
+        ias: r.indicated_airspeed,
+        mach: r.machf(),
+        roll: r.roll_angle,
+        tar: r.track_angle_rate,
+        temperature: r.temperature.map(f64::from_bits),
+        wind: r.wind,
+        humidity: r.humidity,
+        pressure: r.pressure,
+        turbulence: r.turbulence,
+        last_df: r.last_df,
+        last_tc: r.last_type_code,
+        version: r.adsb_version,
+        ss: r.surveillance_status,
+        pos_age: r.position_timestamp.map(|_| 0),
+        trk_age: r.track_timestamp.map(|_| 0),
+        hdg_age: r.heading_timestamp.map(|_| 0),
+        age: 0,
+    }
+}
+
+fn write_lines(path: &str, lines: &[Vec<u8>]) {
+    let mut b = Vec::new();
+    for l in lines {
+        b.extend_from_slice(l);
+        b.push(b'\n');
+    }
+    std::fs::write(path, b).expect("scratch write");
+}
+
+/// a stream that fills many columns for a handful of aircraft
+pub fn rich_stream(r: &mut Rng, nac: usize, extra: usize) -> Vec<Vec<u8>> {
+    let mut lines: Vec<Vec<u8>> = Vec::new();
+    let addrs: Vec<u32> = (0..nac).map(|_| r.addr()).collect();
+    for a in &addrs {
+        if r.chance(2, 3) {
+            for f in super::common::rich_history(r, *a) {
+                lines.push(f.hex().into_bytes());
+            }
+        } else {
+            lines.push(df11(*a, r.below(8) as u32, 0).hex().into_bytes());
+        }
+    }
+    for _ in 0..extra {
+        let a = *r.pick(&addrs);
+        lines.push(rand_frame(r, a).hex().into_bytes());
+    }
+    r.shuffle(&mut lines);
+    lines
+}
+
+// ------------------------------------------------------------------ C14 (b) / C15 CLI
+
+fn block_structure(block: &str, counting: bool) -> Result<(String, Option<String>), String> {
+    // returns (table text without counter line, counter line)
+    let mut lines: Vec<&str> = block.split('\n').collect();
+    if lines.last() == Some(&"") {
+        lines.pop();
+    }
+    if lines.len() < 3 {
+        return Err(format!("refresh has only {} lines", lines.len()));
+    }
+    let sep = lines[1];
+    let counter = if counting { lines.pop().map(|s| s.to_string()) } else { None };
+    if lines.last() != Some(&sep) {
+        return Err(format!("refresh does not end with the separator line{}: last line {:?}", if counting { " before the counter line" } else { "" }, lines.last()));
+    }
+    Ok((lines.join("\n") + "\n", counter))
+}
+
+pub fn refresh_blocks(ctx: &Ctx) -> Option<Report> {
+    let cli = ctx.cli.clone()?;
+    let mut rep = Report::new("C14", "cli-refresh-blocks");
+    let mut r = ctx.rng("c14cli");
+    let subsets = display_subsets();
+    let runs = ctx.share(ctx.n(32, 1600));
+    for k in 0..runs {
+        let d = subsets[((k as usize) * ctx.nshards + ctx.shard) % 32].clone();
+        let opts = Opts { u: r.chance(1, 2), r: r.chance(1, 2), count: r.chance(1, 2), delete_after: 600, update: -1, display: vec![d.clone()], order: vec![r.pick(&["sA", "a", "", "N", "vd"]).to_string()], ..Default::default() };
+        let (na, ne) = (3 + r.below(10) as usize, 20 + r.below(80) as usize);
+        let lines = rich_stream(&mut r, na, ne);
+        let src = scratch("c14.txt");
+        write_lines(&src, &lines);
+        squitterator::set_observer_coords_from_str("52.66411442720024, -8.622299905360963");
+        let out = run_cli(&cli, &cli_args(&opts, &src), Duration::from_secs(60), &[]);
+        let mut t = Table::new();
+        let quiet = Opts { display: vec!["Q".into()], ..opts.clone() };
+        let rt = t.run_bytes(&quiet, &std::fs::read(&src).unwrap_or_default());
+        let _ = std::fs::remove_file(&src);
+        rep.eval(Some(format!("{}|{}", opts.describe(), String::from_utf8_lossy(&lines.concat())).as_bytes()));
+        rep.class(&format!("-i {:?}{}", d, if opts.count { " -c" } else { "" }));
+        if !out.clean_exit() {
+            rep.violation("cli-failed", opts.describe(), out.describe(), vec![format!("cli {}", cli_args(&opts, "<stream>").join(" "))]);
+            continue;
+        }
+        if rt.is_err() {
+            rep.inconclusive(format!("in-process run failed: {:?}", rt));
+            continue;
+        }
+        let blocks = refreshes(&out.stdout);
+        rep.count("refresh_blocks_parsed", blocks.len() as i64);
+        if blocks.is_empty() {
+            rep.inconclusive("no refresh printed".into());
+            continue;
+        }
+        let mut problems: Vec<(String, String)> = Vec::new();
+        let mut prev_rows = 0usize;
+        for (bi, b) in blocks.iter().enumerate() {
+            match block_structure(b, opts.count) {
+                Err(e) => {
+                    problems.push(("refresh-structure".into(), format!("refresh {}: {}", bi, e)));
+                    break;
+                }
+                Ok((table, _)) => match parse_table(&table) {
+                    Err(e) => {
+                        problems.push(("refresh-structure".into(), format!("refresh {}: {}", bi, e)));
+                        break;
+                    }
+                    Ok(pt) => {
+                        if pt.rows.len() < prev_rows {
+                            problems.push(("refresh-structure".into(), format!("refresh {} lists {} aircraft after {} (nothing expires in this run)", bi, pt.rows.len(), prev_rows)));
+                        }
+                        prev_rows = pt.rows.len();
+                        if bi + 1 == blocks.len() {
+                            let rows: Vec<PRow> = t.snapshot().values().map(prow_of).collect();
+                            rep.count("rows_compared_with_table", rows.len() as i64);
+                            problems.extend(check_table(&table, &d, &rows, false));
+                            if let Some(ic) = pt.cols.iter().find(|c| c.0 == "ICAO") {
+                                let printed: Vec<u32> = pt.rows.iter().filter_map(|l| u32::from_str_radix(cell(l, ic.1, ic.2).trim(), 16).ok()).collect();
+                                for (c, m) in check_order(&printed, &rows, &opts.order) {
+                                    problems.push((format!("C15:{}", c), m));
+                                }
+                            }
+                        }
+                    }
+                },
+            }
+        }
+        if rep.want_sample() {
+            rep.sample(
+                J::obj()
+                    .with("cli_args", J::s(cli_args(&opts, "<stream>").join(" ")))
+                    .with("stream_lines", J::i(lines.len() as u64))
+                    .with("refreshes", J::i(blocks.len() as u64))
+                    .with("last_refresh_head", J::s(blocks.last().unwrap().lines().take(3).collect::<Vec<_>>().join(" / ")))
+                    .with("problems", J::i(problems.len() as u64)),
+            );
+        }
+        for (class, msg) in problems.into_iter().take(5) {
+            if class.starts_with("C15:") {
+                continue; // reported by the C15 CLI monitor
+            }
+            let script = cli_script(&opts, &lines, &[format!("note {}", msg)]);
+            rep.violation(&class, opts.describe(), msg, script);
+        }
+    }
+    Some(rep)
+}
+
+pub fn cli_script(opts: &Opts, lines: &[Vec<u8>], extra: &[String]) -> Vec<String> {
+    let mut v = vec![format!("cli {}", cli_args(opts, "{STREAM}").join(" ")), crate::replay::seg_line_bytes(lines).replacen("seg ", "stream ", 1)];
+    v.extend(extra.iter().cloned());
+    v
+}
+
+pub fn refresh_order(ctx: &Ctx) -> Option<Report> {
+    let cli = ctx.cli.clone()?;
+    let mut rep = Report::new("C15", "cli-refresh-order");
+    let mut r = ctx.rng("c15cli");
+    let runs = ctx.share(ctx.n(48, 1600));
+    for _ in 0..runs {
+        let order: Vec<String> = match r.below(4) {
+            0 => vec![r.pick(&super::c15::KEY_LETTERS).to_string()],
+            1 => vec![format!("{}{}", r.pick(&super::c15::KEY_LETTERS), r.pick(&super::c15::KEY_LETTERS))],
+            2 => vec!["".into()],
+            _ => vec![r.pick(&["sA", "xN", "vq", "dD"]).to_string(), r.pick(&super::c15::KEY_LETTERS).to_string()],
+        };
+        let opts = Opts { u: r.chance(1, 2), delete_after: 600, update: -1, display: vec!["".into()], order: order.clone(), ..Default::default() };
+        let (na, ne) = (4 + r.below(25) as usize, 10 + r.below(60) as usize);
+        let lines = rich_stream(&mut r, na, ne);
+        let src = scratch("c15.txt");
+        write_lines(&src, &lines);
+        squitterator::set_observer_coords_from_str("52.66411442720024, -8.622299905360963");
+        let out = run_cli(&cli, &cli_args(&opts, &src), Duration::from_secs(60), &[]);
+        let mut t = Table::new();
+        let rt = t.run_bytes(&Opts { display: vec!["Q".into()], ..opts.clone() }, &std::fs::read(&src).unwrap_or_default());
+        let _ = std::fs::remove_file(&src);
+        rep.eval(Some(format!("{:?}|{}", order, String::from_utf8_lossy(&lines.concat())).as_bytes()));
+        rep.class(&format!("key-{:?}", super::c15::last_key(&order)));
+        if !out.clean_exit() {
+            rep.violation("cli-failed", opts.describe(), out.describe(), cli_script(&opts, &lines, &[]));
+            continue;
+        }
+        if rt.is_err() {
+            rep.inconclusive(format!("in-process run failed: {:?}", rt));
+            continue;
+        }
+        let blocks = refreshes(&out.stdout);
+        rep.count("refresh_blocks_parsed", blocks.len() as i64);
+        let Some(last) = blocks.last() else {
+            rep.inconclusive("no refresh".into());
+            continue;
+        };
+        let rows: Vec<PRow> = t.snapshot().values().map(prow_of).collect();
+        // every block: no duplicate ICAO
+        for (bi, b) in blocks.iter().enumerate() {
+            if let Ok(pt) = parse_table(b) {
+                if let Some(ic) = pt.cols.iter().find(|c| c.0 == "ICAO") {
+                    let mut printed: Vec<u32> = pt.rows.iter().filter_map(|l| u32::from_str_radix(cell(l, ic.1, ic.2).trim(), 16).ok()).collect();
+                    let n = printed.len();
+                    printed.sort();
+                    printed.dedup();
+                    if printed.len() != n {
+                        rep.violation("duplicate-row", opts.describe(), format!("refresh {} lists an aircraft twice", bi), cli_script(&opts, &lines, &[]));
+                    }
+                }
+            }
+        }
+        match parse_table(last) {
+            Err(e) => rep.violation("refresh-structure", opts.describe(), e, cli_script(&opts, &lines, &[])),
+            Ok(pt) => {
+                if let Some(ic) = pt.cols.iter().find(|c| c.0 == "ICAO") {
+                    let printed: Vec<u32> = pt.rows.iter().filter_map(|l| u32::from_str_radix(cell(l, ic.1, ic.2).trim(), 16).ok()).collect();
+                    rep.count("rows_compared_with_table", printed.len() as i64);
+                    for (class, msg) in check_order(&printed, &rows, &order) {
+                        rep.violation(&class, format!("-o {:?}", order), msg.clone(), cli_script(&opts, &lines, &[format!("note {}", msg)]));
+                    }
+                    if rep.want_sample() {
+                        rep.sample(J::obj().with("cli_args", J::s(cli_args(&opts, "<stream>").join(" "))).with("aircraft", J::i(rows.len() as u64)).with("printed_order_first", J::arr_s(&printed.iter().take(6).map(|a| format!("{:06X}", a)).collect::<Vec<_>>())));
+                    }
+                }
+            }
+        }
+    }
+    Some(rep)
+}
+
+// ------------------------------------------------------------------ C16 (ii) counter line
+
+pub fn counter_lines(ctx: &Ctx) -> Option<Report> {
+    let cli = ctx.cli.clone()?;
+    let mut rep = Report::new("C16", "cli-counter-line");
+    let mut r = ctx.rng("c16cli");
+    let runs = ctx.share(ctx.n(320, 10_000));
+    for k in 0..runs {
+        let len = 5 + r.below(200) as usize;
+        let stream = mixed_stream(&mut r, len, false);
+        let filter: Option<Vec<u32>> = match k % 3 {
+            0 => None,
+            1 => Some(vec![*r.pick(&FORMATS)]),
+            _ => Some(FORMATS.iter().copied().filter(|_| r.chance(1, 2)).chain(std::iter::once(17)).collect()),
+        };
+        let counting = k % 5 != 4;
+        let opts = Opts { u: r.chance(1, 2), filter: filter.clone(), count: counting, delete_after: 600, update: -1, display: vec![r.pick(&["", "aAews", "e"]).to_string()], ..Default::default() };
+        let lines: Vec<Vec<u8>> = stream.iter().map(|x| x.0.clone()).collect();
+        let src = scratch("c16.txt");
+        write_lines(&src, &lines);
+        let out = run_cli(&cli, &cli_args(&opts, &src), Duration::from_secs(60), &[]);
+        let _ = std::fs::remove_file(&src);
+        let want = ref_counts(&stream, &filter);
+        let total: u64 = want.values().sum();
+        let evkey = format!("{}|{}", opts.describe(), String::from_utf8_lossy(&lines.concat()));
+        rep.eval(if total > 0 { Some(evkey.as_bytes()) } else { None });
+        rep.class(&format!("{}:{}", if counting { "-c" } else { "no -c" }, match &filter {
+            None => "no filter".to_string(),
+            Some(f) => format!("filter of {}", f.len()),
+        }));
+        if !out.clean_exit() {
+            rep.violation("cli-failed", opts.describe(), out.describe(), cli_script(&opts, &lines, &[]));
+            continue;
+        }
+        let blocks = refreshes(&out.stdout);
+        rep.count("refresh_blocks_parsed", blocks.len() as i64);
+        if total == 0 {
+            if !blocks.is_empty() {
+                rep.violation("refresh-without-accepted-frame", opts.describe(), format!("{} refreshes although no frame was accepted", blocks.len()), cli_script(&opts, &lines, &[]));
+            }
+            continue;
+        }
+        if blocks.len() as u64 != total {
+            // one refresh per accepted frame with --update=-1 is how this monitor synchronises; not a property
+            rep.count("refresh_count_differs_from_accepted_frames", 1);
+        }
+        let Some(last) = blocks.last() else {
+            rep.violation("no-refresh", opts.describe(), format!("{} frames accepted but nothing printed", total), cli_script(&opts, &lines, &[]));
+            continue;
+        };
+        let want_line: String = want.iter().filter(|(_, n)| **n > 0).map(|(d, n)| format!("DF{}:{}", d, n)).collect::<Vec<_>>().join(" ");
+        match block_structure(last, counting) {
+            Err(e) => rep.violation("refresh-structure", opts.describe(), e, cli_script(&opts, &lines, &[])),
+            Ok((_, counter)) => {
+                let got = counter.map(|c| c.split_whitespace().collect::<Vec<_>>().join(" "));
+                rep.count("counter_lines_compared", counting as i64);
+                if rep.want_sample() {
+                    rep.sample(J::obj().with("cli_args", J::s(cli_args(&opts, "<stream>").join(" "))).with("stream_lines", J::i(lines.len() as u64)).with("expected_counter_line", J::s(&want_line)).with("observed", J::s(format!("{:?}", got))));
+                }
+                if counting {
+                    if got.as_deref() != Some(want_line.as_str()) {
+                        rep.violation(
+                            "counter-line",
+                            format!("{} want {}", opts.describe(), want_line),
+                            format!("last counter line {:?}, expected {:?} (accepted frames with non-zero address per DF, admitted by -f {:?})", got, want_line, filter),
+                            cli_script(&opts, &lines, &[format!("expect-last-counter-line {}", want_line)]),
+                        );
+                    }
+                } else if last.lines().any(|l| l.trim_start().starts_with("DF") && l.contains(':')) {
+                    rep.violation("counter-line-without-c", opts.describe(), "a DFn:count line is printed without -c".into(), cli_script(&opts, &lines, &[]));
+                }
+            }
+        }
+    }
+    Some(rep)
+}
+
+// ------------------------------------------------------------------ C19 -l
+
+fn mask_ages(block: &str) -> String {
+    // drop the LC and PTH cells (wall-clock ages)
+    match parse_table(block) {
+        Ok(pt) => {
+            let mut out = vec![pt.header.clone()];
+            for l in &pt.rows {
+                let mut cs: Vec<char> = l.chars().collect();
+                for (n, s, e) in &pt.cols {
+                    if n == "LC" || n == "PTH" {
+                        for i in *s..(*e).min(cs.len()) {
+                            cs[i] = '#';
+                        }
+                    }
+                }
+                out.push(cs.into_iter().collect());
+            }
+            out.join("\n")
+        }
+        Err(_) => block.to_string(),
+    }
+}
+
+pub fn logging_option(ctx: &Ctx) -> Option<Report> {
+    let cli = ctx.cli.clone()?;
+    let mut rep = Report::new("C19", "cli-error-log-option");
+    let mut r = ctx.rng("c19cli");
+    let runs = ctx.share(ctx.n(32, 800));
+    for _ in 0..runs {
+        let opts = Opts { u: r.chance(1, 2), r: r.chance(1, 2), delete_after: 600, update: -1, display: vec!["aAews".into()], order: vec!["".into()], log_messages: if r.chance(1, 2) { Some(vec![17, 4]) } else { None }, ..Default::default() };
+        let na = 3 + r.below(8) as usize;
+        let mut lines = rich_stream(&mut r, na, 30);
+        lines.insert(r.below(lines.len() as u64) as usize, b"not a frame".to_vec());
+        let src = scratch("c19.txt");
+        write_lines(&src, &lines);
+        let log = scratch("c19.log");
+        let a = run_cli(&cli, &cli_args(&opts, &src), Duration::from_secs(60), &[]);
+        let mut with_l = cli_args(&opts, &src);
+        with_l.push("-l".into());
+        with_l.push(log.clone());
+        let b = run_cli(&cli, &with_l, Duration::from_secs(60), &[]);
+        let logged = std::fs::metadata(&log).map(|m| m.len()).unwrap_or(0);
+        let _ = std::fs::remove_file(&src);
+        let _ = std::fs::remove_file(&log);
+        rep.eval(Some(String::from_utf8_lossy(&lines.concat()).as_bytes()));
+        rep.count("log_bytes_written", logged as i64);
+        if !a.clean_exit() || !b.clean_exit() {
+            rep.violation("cli-failed", opts.describe(), format!("without -l: {} | with -l: {}", a.describe(), b.describe()), cli_script(&opts, &lines, &[]));
+            continue;
+        }
+        let (ba, bb) = (refreshes(&a.stdout), refreshes(&b.stdout));
+        let (la, lb) = (ba.last().map(|x| mask_ages(x)), bb.last().map(|x| mask_ages(x)));
+        if rep.want_sample() {
+            rep.sample(J::obj().with("cli_args", J::s(cli_args(&opts, "<stream>").join(" "))).with("refreshes", J::i(ba.len() as u64)).with("log_bytes_with_l", J::i(logged)).with("equal", J::Bool(la == lb)));
+        }
+        if ba.len() != bb.len() || la != lb {
+            rep.violation("error-log-option-changes-output", opts.describe(), format!("final table differs with -l: {:?} vs {:?}", la.map(|x| x.chars().take(300).collect::<String>()), lb.map(|x| x.chars().take(300).collect::<String>())), cli_script(&opts, &lines, &["note run once more with -l <file> and compare the last refresh".into()]));
+        }
+    }
+    Some(rep)
+}
+
+// ------------------------------------------------------------------ replay of CLI cases
+
+pub fn replay_cli(script: &str) -> (bool, String) {
+    let cli = match std::env::var("SQMON_CLI") {
+        Ok(c) => c,
+        Err(_) => return (true, "SQMON_CLI not set\n".into()),
+    };
+    let mut log = String::new();
+    let mut stream: Vec<u8> = Vec::new();
+    let mut args: Vec<String> = Vec::new();
+    let mut expect_counter: Option<String> = None;
+    let mut expect_exit0 = false;
+    for l in script.lines() {
+        if let Some(rest) = l.strip_prefix("stream ") {
+            for x in rest.split('|') {
+                stream.extend(crate::replay::unesc_line(x));
+                stream.push(b'\n');
+            }
+        } else if let Some(rest) = l.strip_prefix("streamhex ") {
+            stream = (0..rest.len() / 2).filter_map(|i| u8::from_str_radix(&rest[2 * i..2 * i + 2], 16).ok()).collect();
+        } else if let Some(rest) = l.strip_prefix("cli ") {
+            args = rest.split(' ').map(|s| s.to_string()).collect();
+        } else if let Some(rest) = l.strip_prefix("expect-last-counter-line ") {
+            expect_counter = Some(rest.to_string());
+        } else if l.starts_with("expect-exit-0") {
+            expect_exit0 = true;
+        } else {
+            log.push_str(l);
+            log.push('\n');
+        }
+    }
+    let src = scratch("replay.txt");
+    std::fs::write(&src, &stream).expect("scratch");
+    let args: Vec<String> = args.into_iter().map(|a| a.replace("{STREAM}", &src)).collect();
+    let out = run_cli(&cli, &args, Duration::from_secs(120), &[]);
+    let _ = std::fs::remove_file(&src);
+    log.push_str(&format!("ran: {} {}\n-> {}\n", cli, args.join(" "), out.describe()));
+    let blocks = refreshes(&out.stdout);
+    if let Some(b) = blocks.last() {
+        log.push_str("last refresh:\n");
+        log.push_str(b);
+    }
+    let mut ok = true;
+    if expect_exit0 && !out.clean_exit() {
+        ok = false;
+        log.push_str("expect-exit-0 -> FAILS\n");
+    }
+    if let Some(w) = expect_counter {
+        let got = blocks.last().and_then(|b| b.lines().last().map(|x| x.split_whitespace().collect::<Vec<_>>().join(" ")));
+        let good = got.as_deref() == Some(w.as_str());
+        ok &= good;
+        log.push_str(&format!("expect-last-counter-line {} -> {} (observed {:?})\n", w, if good { "holds" } else { "FAILS" }, got));
+    }
+    (ok, log)
 }
